@@ -22,6 +22,7 @@ import (
 	"os"
 	"os/exec"
 	"path/filepath"
+	"strconv"
 	"strings"
 	"time"
 	"unicode"
@@ -590,6 +591,32 @@ func unqAll(qs []string) {
 	}
 }
 
+// pinned reads the regression corpus: one Go string literal per line, '#' comments.
+func pinned(path string) []string {
+	if path == "" {
+		return nil
+	}
+	f, err := os.Open(path)
+	if err != nil {
+		panic(err)
+	}
+	defer f.Close()
+	var out []string
+	sc := bufio.NewScanner(f)
+	for sc.Scan() {
+		line := strings.TrimSpace(sc.Text())
+		if line == "" || strings.HasPrefix(line, "#") {
+			continue
+		}
+		s, err := strconv.Unquote(line)
+		if err != nil {
+			panic(fmt.Sprintf("corpus line %q: %v", line, err))
+		}
+		out = append(out, s)
+	}
+	return out
+}
+
 func main() {
 	o := hx.ParseArgs()
 	defer hx.Flush()
@@ -630,6 +657,7 @@ func main() {
 				}
 			}
 		}
+		strs = append(pinned(o.In), strs...) // the regression corpus runs first
 		strs = append(strs, criticalStrings()...)
 		strs = append(strs, keywordTokens...)
 		r := hx.Rand(o.Seed, 13)
